@@ -336,6 +336,16 @@ func (fc *FnCtx) fmtArg(a Term, verb byte, spec string) Term {
 	if a.Sort != SAny {
 		return generic
 	}
+	// booleans print as true/false under %v
+	if verb == 'v' && spec == "" {
+		fc.declareFun("fmt$ref", []string{SInt, SInt}, SString)
+		return fc.define("fmt", Term{fmt.Sprintf("(ite ((_ is abool) %s) (ite (abval %s) \"true\" \"false\") (ite ((_ is astr) %s) (asval %s) %s))", a.S, a.S, a.S, a.S, generic.S), SString})
+	}
+	// pointers print through fmt$ref(tag, ref) under %s (the Stringer of the pointee, or <nil>)
+	if verb == 's' && spec == "" {
+		fc.declareFun("fmt$ref", []string{SInt, SInt}, SString)
+		return fc.define("fmt", Term{fmt.Sprintf("(ite ((_ is astr) %s) (asval %s) (ite ((_ is aref) %s) (fmt$ref (atag_r %s) (arval %s)) %s))", a.S, a.S, a.S, a.S, a.S, generic.S), SString})
+	}
 	// string payloads print as themselves under %s/%v, quoted under %q
 	switch verb {
 	case 's', 'v':
@@ -748,5 +758,13 @@ func init() {
 	}
 	libModels["github.com/pborman/uuid.Equal"] = func(fr *frame, in ssa.Instruction, c *ssa.CallCommon, args []Val, st *State, reach string) Val {
 		return Term{eq(tArg(args, 0).S, tArg(args, 1).S), SBool}
+	}
+}
+
+func init() {
+	libModels["strconv.Itoa"] = func(fr *frame, in ssa.Instruction, c *ssa.CallCommon, args []Val, st *State, reach string) Val {
+		fc := fr.fc
+		fc.declareFun("itoa$", []string{SInt}, SString)
+		return Term{"(itoa$ " + tArg(args, 0).S + ")", SString}
 	}
 }
